@@ -2,7 +2,7 @@
    A statement about wall time is not a theorem; its logical core is: which sets are ever enumerated and how big. *)
 From Coq Require Import ZArith List Bool.
 From PV Require Import Util.ListSet Util.Sumset BLS.Model BLS.Den BLS.ProofsMod BLS.Cost BLS.CostProofs
-  Layout.Types Layout.Proofs Layout.ProofsSpec Layout.Offsets Layout.CostProofs.
+  Layout.Types Layout.Proofs Layout.ProofsSpec Layout.Offsets Layout.CostProofs Layout.CostLinear.
 Import ListNotations.
 Open Scope Z_scope.
 
@@ -50,10 +50,7 @@ Print Assumptions C16_cost_eval.
 
 (* array elements of DSDL types have a single residue modulo the byte: one multiset per repetition count *)
 Theorem C16_byte_aligned_single_residue : forall t, wft t = true -> align t = 8 -> omod (bls t) 8 = [0].
-Proof.
-  intros t W A. pose proof (is_aligned_spec (bls t) 8 (proj1 (wf_bls t W)) ltac:(discriminate)) as [_ H].
-  unfold is_aligned in H. apply list_eqb_eq. apply H. intros x D. rewrite <- A. exact (align_divides t W x D).
-Qed.
+Proof. exact aligned8_mod8. Qed.
 Print Assumptions C16_byte_aligned_single_residue.
 
 (* pairwise (left-nested) aggregation: every concatenation node of a type's set - and of the offsets of its fields - has at
@@ -70,6 +67,16 @@ Print Assumptions C16_pairwise_offsets.
 Theorem C16_pair_bound : forall a b d, wf a -> wf b -> 1 <= d -> local_cost KCat [zlen (omod a d); zlen (omod b d)] 0 d <= d * d.
 Proof. exact cat2_local_bound. Qed.
 Print Assumptions C16_pair_bound.
+
+(* a concrete bound: for every type that DSDL text can express (an array element is never itself an array), a byte-alignment
+   query on the type's set enumerates at most 64 tuples per node of its operator tree - capacities and extents do not occur *)
+Theorem C16_byte_alignment_linear : forall t, wft t = true -> flat t -> cost_mod (bls t) 8 <= 64 * size_op (bls t).
+Proof. exact byte_alignment_linear. Qed.
+Print Assumptions C16_byte_alignment_linear.
+
+Theorem C16_light_trees : forall t, wf t -> light t -> cost_mod t 8 <= 64 * size_op t.
+Proof. exact light_cost. Qed.
+Print Assumptions C16_light_trees.
 
 Example C16_nonvacuous :
   let t := bls (TVar (TStruct [110] [(Some [97], TVar (TPrim (PUInt 8 Sat)) (2 ^ 63))]) (2 ^ 63)) in
